@@ -21,6 +21,7 @@ import (
 	"google.golang.org/protobuf/proto"
 
 	ipfslog "berty.tech/go-ipfs-log"
+	ipfslogio "berty.tech/go-ipfs-log/io"
 	orbitdb "berty.tech/go-orbit-db"
 	"berty.tech/go-orbit-db/iface"
 	"berty.tech/go-orbit-db/stores"
@@ -46,6 +47,10 @@ func newVWorld(t testing.TB) *vWorld {
 	mn := mocknet.New()
 	api := ipfsutil.TestingCoreAPIUsingMockNet(ctx, t, &ipfsutil.TestingAPIOpts{Mocknet: mn, DiscoveryServer: tinder.NewMockDriverServer()})
 	w := &vWorld{t: t, ctx: ctx, cancel: cancel, api: api}
+	// go-ipfs-log builds its CBOR codec lazily in an unsynchronised singleton on the first log operation of the process;
+	// harnesses that open their first groups from several goroutines at once would race there (a real node opens its
+	// account group first, alone). Build it here, once, before anything runs in parallel.
+	_ = ipfslogio.CBOR()
 	t.Cleanup(func() {
 		cancel()
 		_ = mn.Close()
